@@ -290,6 +290,9 @@ class SMCSampler(MCMCSampler):
                 self.adaptive_min_step = True
         else:
             self.adaptive_min_step = False
+        if resumed and getattr(self, "_restored_min_step", None) is not None:
+            # The adaptive minimum step changes during the run
+            min_step = self._restored_min_step
 
         iterations = iterations or 0
         if checkpoint_callback is None and checkpoint_every is not None:
@@ -315,7 +318,9 @@ class SMCSampler(MCMCSampler):
             )
             if not should_checkpoint:
                 return
-            state = self.build_checkpoint_state(samples, iterations, beta)
+            state = self.build_checkpoint_state(
+                samples, iterations, beta, min_step=min_step
+            )
             checkpoint_callback(state)
 
         if run_smc_loop:
@@ -413,13 +418,17 @@ class SMCSampler(MCMCSampler):
         return log_prob
 
     def build_checkpoint_state(
-        self, samples: SMCSamples, iteration: int, beta: float
+        self,
+        samples: SMCSamples,
+        iteration: int,
+        beta: float,
+        min_step: float | None = None,
     ) -> dict:
         """Prepare a serializable checkpoint payload for the sampler state."""
         return super().build_checkpoint_state(
             samples,
             iteration,
-            meta={"beta": beta},
+            meta={"beta": beta, "min_step": min_step},
         )
 
     def _checkpoint_extra_state(self) -> dict:
@@ -445,6 +454,9 @@ class SMCSampler(MCMCSampler):
             beta = meta.get("beta", None)
         if beta is None:
             beta = state.get("beta", 0.0)
+        self._restored_min_step = (
+            meta.get("min_step", None) if isinstance(meta, dict) else None
+        )
         iteration = state.get("iteration", 0)
         self.history = state.get("history", SMCHistory())
         rng_state = state.get("rng_state")
